@@ -26,6 +26,10 @@ def cfgs(ctx):
     add('ring3', Kind='ring', K=3, MaxJoins=4)
     add('ring4', Kind='ring', K=4, MaxJoins=4, MaxRep=1)
     add('2x2-p2', W1=2, W2=2, NN=3, MaxJoins=4, MaxRep=1)
+    # 3-D, interface normal to the MIDDLE axis, asymmetric flips (one of the two face axes reflected)
+    add('1x2x1-3d-flipA', D=3, W1=1, W2=2, W3=1, ReflSeed=8, MaxJoins=2)
+    add('1x2x1-3d-flipB', D=3, W1=1, W2=2, W3=1, ReflSeed=32, MaxJoins=2)
+    add('2x1x1-3d-flip', D=3, W1=2, W2=1, W3=1, ReflSeed=16, MaxJoins=1)
     if ctx.thorough:
         add('2x2-rep', W1=2, W2=2, MaxJoins=8, MaxRep=2, workers=4)
         add('3x2', W1=2, W2=3, MaxJoins=7, MaxRep=1, workers=6)
